@@ -207,7 +207,13 @@ class Machine:
             st.bound.append(edge)
             return
         if st.reach:
-            if edge['frame'] != st.frame:
+            if edge['frame'] != st.frame and getattr(st, 'fall_pending', None) == st.frame:
+                st.viol('O5', 'the function body can fall off its end (no Return/ReturnValue on some path)')
+                st.frame = edge['frame']
+                st.fall_pending = None
+                if edge['h'] is not None:
+                    st.h = edge['h']
+            elif edge['frame'] != st.frame:
                 st.viol('O6', '%s: a jump from frame %s lands in code of frame %s (control leaves/enters a function body)' % (what, edge['frame'], st.frame))
             elif edge['h'] != st.h:
                 st.viol('O3', '%s: stack height %s on the jump edge but %s on the fall-through/other edge at the same target' % (what, edge['h'], st.h))
@@ -215,6 +221,7 @@ class Machine:
             st.reach = True
             st.h = edge['h']
             st.frame = edge['frame']
+            st.fall_pending = None
         st.bound.append(edge)
         lab = st.labels.get(st.pos)
         if lab is not None:
@@ -301,8 +308,10 @@ class Machine:
         outer, inner = st.frames.pop()
         st.ctx_depth -= 1
         if st.reach and st.frame == inner:
-            st.viol('O5', 'the function body can fall off its end (no Return/ReturnValue on some path)')
-            st.frame = outer
+            # the symbol context is closed, the code of the body may not be finished yet (the closing Return can be emitted after
+            # leave_context()): whether the body falls off its end is decided where the code after the function begins - at the
+            # landing of the jump that skips the body
+            st.fall_pending = inner
         return ('numlocals', inner)
 
 
